@@ -461,6 +461,8 @@ def _domain(crate, ty):
     if ty in ("i8", "i16"):
         h = _FINITE[ty] // 2
         return list(range(-h, h))
+    if ty.startswith(("yasna::DERWriter", "yasna::writer::DERWriter")):
+        return [ceval.OPAQUE]       # an output sink: its state does not influence any arithmetic (effects are not modelled)
     vals = ceval.enum_values(crate, ty)
     if vals:
         return vals
@@ -470,6 +472,9 @@ def _domain(crate, ty):
         if inner is not None:
             return [ceval.NONE] + [ceval.Some(x) for x in inner]
     return None
+
+
+_FD_CACHE = {}
 
 
 def finite_discharge(crate, owner, body_names, construct):
@@ -488,19 +493,38 @@ def finite_discharge(crate, owner, body_names, construct):
         if b is None or "hir" not in b:
             return False, "no HIR for %s" % bn
         in_closure = "{closure" in bn
+        if in_closure:
+            # a closure handed to a writer runs as part of its parent: evaluate the parent (the evaluator runs closures
+            # given to unmodelled calls with opaque arguments)
+            pb_ = crate.bodies.get(bn.split("::{closure")[0])
+            if pb_ is not None and "hir" in pb_ and pb_.get("params") is not None and all(_domain(crate, p_.get("ty")) is not None for p_ in pb_["params"]):
+                b, bn, in_closure = pb_, bn.split("::{closure")[0], False
         doms = [_domain(crate, p_.get("ty")) for p_ in b.get("params", [])] if not in_closure else [None]
         size = 1
         for d in doms:
             size *= len(d) if d is not None else 10 ** 9
         if b.get("params") is not None and all(d is not None for d in doms) and size <= 70000:
+            ck_ = (id(crate), bn)
+            if ck_ in _FD_CACHE:
+                r_ = _FD_CACHE[ck_]
+                if r_ is not True:
+                    return False, r_
+                why = "%s evaluated for all %d argument tuples without a failing check" % (bn, size)
+                continue
             E = ceval.Eval(crate, budget=20_000_000)
+            # effect-capturing mode with a pattern that matches nothing: unmodelled foreign calls (encoders, constructors of
+            # foreign types) yield an opaque value; using such a value in a condition or in arithmetic is still Unsupported
+            E.capture = "<nothing>"
             try:
                 for args in itertools.product(*doms):
                     E.call(bn, list(args))
             except ceval.Panic as e:
-                return False, "%s panics for %s: %s" % (bn, args, e)
+                _FD_CACHE[ck_] = "%s panics for %s: %s" % (bn, args, e)
+                return False, _FD_CACHE[ck_]
             except ceval.Unsupported as e:
-                return False, "not evaluable: %s" % e
+                _FD_CACHE[ck_] = "not evaluable: %s" % e
+                return False, _FD_CACHE[ck_]
+            _FD_CACHE[ck_] = True
             why = "%s evaluated for all %d argument tuples without a failing check" % (bn, size)
             continue
         # (b) expression-level (arithmetic / bounds asserts only: a panicking call needs the whole function)
